@@ -55,3 +55,30 @@ func HashFiles(absolutePackagePath string, fileList []string) (string, error) {
 	// Return the combined hash as a hexadecimal string.
 	return combinedHasher.SumString(), nil
 }
+
+// HashInputFiles computes a combined hash over the (name, content) pairs of the given
+// files relative to absolutePackagePath. Unlike HashFiles every file contributes its
+// name and its own content digest, both length-framed, so that bytes cannot move from
+// the end of one file to the start of the next without changing the result, and a
+// missing file is distinguishable from an empty one.
+func HashInputFiles(absolutePackagePath string, fileList []string) (string, error) {
+	combinedHasher := GetHasher()
+	// Ensure consistent ordering.
+	sort.Strings(fileList)
+
+	for _, file := range fileList {
+		fileHash, err := HashFile(filepath.Join(absolutePackagePath, file))
+		if err != nil {
+			if !os.IsNotExist(err) {
+				return "", fmt.Errorf("failed opening input file for hashing: %w", err)
+			}
+			// NOTE: If a file does not exist in the package, we record that instead of failing.
+			fileHash = "missing"
+		}
+		if _, err := combinedHasher.WriteString(framed(file) + framed(fileHash)); err != nil {
+			return "", err
+		}
+	}
+
+	return combinedHasher.SumString(), nil
+}
